@@ -58,6 +58,13 @@ BUILTINS = [
     ("add", [STR, STR], STR), ("eq", [STR, STR], BOOL), ("len", [STR], INT),
     ("to_str", [INT], STR), ("to_str", [BOOL], STR), ("indicator", [BOOL], INT),
     ("assert", [BOOL], BOOL),
+    # the relations derived from cmp, on other types than int (equal operands matter: a >= a)
+    ("ge", [BOOL, BOOL], BOOL), ("le", [BOOL, BOOL], BOOL), ("lt", [BOOL, BOOL], BOOL), ("gt", [BOOL, BOOL], BOOL),
+    ("ge", [("tup", (INT, BOOL)), ("tup", (INT, BOOL))], BOOL), ("le", [("tup", (INT, INT)), ("tup", (INT, INT))], BOOL),
+    ("gt", [("tup", (INT, INT)), ("tup", (INT, INT))], BOOL), ("lt", [("tup", (BOOL, INT)), ("tup", (BOOL, INT))], BOOL),
+    ("ge", [("seq", INT), ("seq", INT)], BOOL), ("lt", [("seq", INT), ("seq", INT)], BOOL), ("le", [("seq", INT), ("seq", INT)], BOOL),
+    ("cmp", [("tup", (INT, INT)), ("tup", (INT, INT))], INT), ("cmp", [("seq", INT), ("seq", INT)], INT), ("cmp", [BOOL, BOOL], INT),
+    ("ge", [STR, STR], BOOL), ("le", [STR, STR], BOOL),
 ]
 
 
